@@ -403,4 +403,33 @@ def directed(tier):
                  {'actor': 2, 'ver': [1, 4], 'items': [
                      {'op': 'Query', 'funcs': [1]}]},
                  {'actor': 0, 'ver': [1, 4], 'items': [
-                     {'op': 'Query', 'funcs': [1]}]}]}]
+                     {'op': 'Query', 'funcs': [1]}]}]},
+            # text strings the server has DECODED and writes back: the
+            # wrapping key named by a spelling that fills its 8-byte block
+            # exactly is echoed inside the Key Wrapping Data of the answer
+            {'actors': [{'cn': 'alice'}, {'cn': 'bob'}], 'plugin_fails':
+             False, 'seed': 12, 'steps': [
+                 {'actor': 0, 'ver': [1, 2], 'items': [{
+                     'op': 'Register', 'label': 'wk8',
+                     'otype': 'SymmetricKey',
+                     'attrs': [gen.A('Cryptographic Usage Mask', 0x30)],
+                     'obj': {'kft': 1, 'value': '11' * 16, 'alg': 3,
+                             'len': 128}}]},
+                 {'actor': 0, 'ver': [1, 2], 'items': [
+                     {'op': 'Activate', 'uid': '@wk8'}]},
+                 {'actor': 0, 'ver': [1, 2], 'items': [{
+                     'op': 'Register', 'label': 'k8',
+                     'otype': 'SymmetricKey',
+                     'attrs': [gen.A('Cryptographic Usage Mask', 12),
+                               gen.A('Name', ['12345678', 1], 0),
+                               gen.A('Object Group', 'abcdefgh', 0)],
+                     'obj': {'kft': 1, 'value': '22' * 16, 'alg': 3,
+                             'len': 128}}]}] + [
+                 {'actor': 0, 'ver': list(v), 'items': [{
+                     'op': 'Get', 'uid': '@k8', 'wrapspec': {
+                         'method': 1, 'enc': {'uid': '@wk8', 'pad8': True,
+                                              'cp': {'mode': 0xD}},
+                         'encoding': 1}}]}
+                 for v in ((1, 0), (1, 2), (1, 4), (2, 0))] + [
+                 {'actor': 0, 'ver': [1, 2], 'items': [
+                     {'op': 'GetAttributes', 'uid': '@k8'}]}]}]
